@@ -18,7 +18,8 @@ for n in names:
         print(f"{n}: PATCH DOES NOT APPLY"); bad += 1; continue
     try:
         for pid in pids:
-            p = subprocess.run(["./check", pid, "--tier", "quick"], cwd="/verif", stdout=subprocess.PIPE, stderr=subprocess.DEVNULL, text=True)
+            p = subprocess.run(["./check", pid, "--tier", "quick"], cwd="/verif", stdout=subprocess.PIPE, stderr=subprocess.DEVNULL, text=True,
+                               env=dict(os.environ, VERIF_EVIDENCE_DIR="/tmp/verif-evidence-scratch"))
             viol = [l for l in p.stdout.splitlines() if l.startswith("VIOLATION")]
             nf = any("no-failing-input-found" in l for l in viol)
             if harmless:
